@@ -361,10 +361,14 @@ def sensitive_now(sess, exact_formula):
     """rounding-sensitive situations that the exact model cannot be expected to reproduce"""
     raw = sess.raw()
     xr = sess.ev.settings.xrange
-    if xr and not exact_formula:      # a sample within rounding distance of a range boundary
+    try:
+        bounds = (float(xr[0]), float(xr[1])) if xr else None
+    except (TypeError, ValueError, IndexError):
+        bounds = None                 # not a pair of numbers (left behind by a rejected request): nothing to judge here
+    if bounds and not exact_formula:      # a sample within rounding distance of a range boundary
         big = max([abs(x) for x in raw] + [0.0])
         for x in raw:
-            for b in (float(xr[0]), float(xr[1])):
+            for b in bounds:
                 if abs(x - b) <= 1e-9 * max(big, abs(b)):
                     return "near-range-boundary"
     if sess.strategy() != "Mode":
@@ -445,7 +449,7 @@ def history_features(case, run):
     for o, (ob, w1, w2) in zip(case["ops"], run["obs"]):
         if ob[0] == "exn":
             tags.add("exn:" + o[0])
-        if o[0] == "inspect":
+        if o[0] == "inspect" and ob[0] == "info":
             strat = ob[3]
             if ob[4] is not None:
                 tags.add("range-set")
@@ -706,6 +710,13 @@ def check_reported(sess, S):
         return "repeated reads differ: ({}, {}) then ({}, {})".format(v1, e1, v2, e2)
     m = r.mc
     strat, conf, xr = mc.STRAT[m.strategy], m.confidence, m.xrange
+    if xr:
+        try:
+            ok_ = len(xr) == 2 and float(xr[0]) <= float(xr[1])
+        except (TypeError, ValueError):
+            ok_ = False
+        if not ok_:
+            return "the configured range reads back as {!r}, which is not a range".format(xr)
     xs = [Fraction(float(x)) for x in S]
     sc = max([abs(x) for x in xs] + [Fraction(0)]) or Fraction(1)
     v, e = mc.num_obs(v1), mc.num_obs(e1)
@@ -723,7 +734,9 @@ def check_reported(sess, S):
         if (mean is None) != (v is None) or (mean is not None and not close(fr(v), mean, scale=sc)):
             return "value {} is not the mean {} of the {} retrievable samples{}".format(
                 v1, None if mean is None else float(mean), len(xs), " inside the range {}".format(xr) if xr else "")
-        if (var is None) != (e is None) or (var is not None and not close(fr(e) ** 2, var, Fraction(1, 10 ** 7), sc * sc)):
+        # conditioning-aware: relative to the variance itself, apart from the second-order effect of the rounded mean
+        if (var is None) != (e is None) or \
+                (var is not None and abs(fr(e) ** 2 - var) > var / 10 ** 7 + (sc / 10 ** 13) ** 2):
             return "uncertainty {} is not the sample standard deviation {} (ddof=1) of the {} retrievable samples{}".format(
                 e1, None if var is None else math.sqrt(var), len(xs), " inside the range {}".format(xr) if xr else "")
         return None
@@ -753,6 +766,17 @@ PRESERVING = {"read_value", "read_error", "set_conf", "set_range", "use_mode", "
               "inspect", "mutate", "set_gsize", "sibling"}
 
 
+def settings_snapshot(sess):
+    """range, confidence, strategy, sample size as the public API reads them back"""
+    m = sess.res.mc
+    xr = m.xrange
+    try:
+        rng_ = tuple(float(x) for x in xr) if xr else ()
+    except (TypeError, ValueError):
+        rng_ = repr(xr)             # whatever was left there
+    return (rng_, float(m.confidence), mc.STRAT[m.strategy], int(m.sample_size))
+
+
 def check_history_oracle(case, total_formula=None):
     """replays a history and checks after every operation what the property promises; returns None or a description"""
     import warnings
@@ -774,6 +798,7 @@ def _check_history_oracle(case, total_formula=None):
             S_prev, calls_prev, expect_redraw = None, len(script.calls), True
             size_at_draw = None
             import qexpy as q
+            rejected_since_fresh = False
             own_expected = 0            # the per-quantity size the USER configured (0 = none): tracked here, not read back
             glob_expected = q.get_settings().monte_carlo_sample_size
             for idx, o in enumerate(case["ops"]):
@@ -781,7 +806,17 @@ def _check_history_oracle(case, total_formula=None):
                 eff_before = own_expected if own_expected else glob_expected
                 if o[0] == "mutate" and (o[1] >= len(sess.handed) or o[2] >= len(sess.handed[o[1]])):
                     continue
+                settings_call = o[0] in ("set_conf", "set_range", "use_mode", "use_custom", "set_size")
+                before = settings_snapshot(sess) if settings_call else None
                 ob, wpd, w10 = sess.step(o)
+                if settings_call and ob[0] == "exn" and ob[1] != "Timeout":
+                    after = settings_snapshot(sess)
+                    if after != before:
+                        diff = [n_ for n_, x_, y_ in zip(("range", "confidence", "strategy", "sample size"), before, after)
+                                if x_ != y_]
+                        return ("step {} {}: the request was rejected ({}) but changed the {}: {} before, {} after".format(
+                            idx, o, ob[1], " and ".join(diff), before, after))
+                    rejected_since_fresh = True
                 if ob == ["exn", "Timeout"]:
                     return "step {} {}: the call does not return".format(idx, o)
                 ok = ob[0] != "exn"
@@ -890,6 +925,13 @@ def gen_oracle_case(rng, seed):
         elif t == "set_range":
             c = float.fromhex(sources[0]["value"])
             a, b = sorted([dy(rng, c - 3, c + 3), dy(rng, c - 3, c + 6)])
+            if rng.random() < 0.3:      # a rejected request, then something that makes the next read compute afresh
+                bad = rng.choice([[["float", fx(b + 1.0)], ["float", fx(a)]], [["str", "a"], ["float", fx(b)]], [["float", fx(a)]],
+                                  [["float", fx(a)], ["none"]], [["tuple", [["float", fx(a)], ["float", fx(b)]]]]])
+                ops += [["set_range", bad], ["read_value"],
+                        rng.choice([["recalc"], ["use_mode", ["noarg"]], ["use_mean_std"], ["set_conf", ["float", fx(0.5)]]]),
+                        ["read_value"]]
+                continue
             ops.append([t, rng.choice([[["float", fx(a)], ["float", fx(b)]], [], [["float", fx(-1000.0)], ["float", fx(1000.0)]]])])
         elif t == "use_mode":
             ops.append([t, rng.choice([["noarg"], ["noarg"], ["float", fx(0.9)], ["float", fx(1.0)], ["float", fx(0.5)],
@@ -925,6 +967,15 @@ def range_family():
                     ("set-read-remove-read", [rng_(6.5, 7.5)] + rd + [["set_range", []]] + rd),
                     ("read-set-read-remove-read", rd + [rng_(6.75, 8.0)] + rd + [["set_range", []]] + rd),
                     ("set-read-set-another-read-remove-read", [rng_(6.0, 7.0)] + rd + [rng_(7.0, 8.5)] + rd + [["set_range", []]] + rd),
+                    ("set-read-rejected(reversed)-read-recalc-read",
+                     [rng_(6.5, 7.5)] + rd + [rng_(8.0, 6.0)] + rd + [["recalc"]] + rd),
+                    ("rejected(reversed)-read-switch-strategy-read",
+                     rd + [rng_(7.5, 6.5)] + rd + [["use_mode", ["noarg"]] if strat == "mean" else ["use_mean_std"]] + rd +
+                     [["recalc"]] + rd),
+                    ("set-rejected(non-number)-recalc-read",
+                     [rng_(6.5, 7.5)] + rd + [["set_range", [["str", "a"], ["float", fx(8.0)]]], ["recalc"]] + rd),
+                    ("set-rejected(one tuple)-recalc-read",
+                     [rng_(6.5, 7.5), ["set_range", [["tuple", [["float", fx(6.0)], ["float", fx(7.0)]]]]], ["recalc"]] + rd),
                     ("set-read-switch-strategy-remove-read",
                      [rng_(6.5, 7.5)] + rd + [["use_mode", ["noarg"]] if strat == "mean" else ["use_mean_std"]] + rd +
                      [["set_range", []]] + rd + [["use_mean_std"] if strat == "mean" else ["use_mode", ["noarg"]]] + rd)):
